@@ -533,48 +533,83 @@ def check_backtrack(ctx, ex, p, drv, rv, st):
 
     paths = run(ctx, ex2, thunk)
     rets = returns(paths)
-    if len(rets) != 1 or len(paths) != 1:
-        ctx.undecided(rule, "helper", hf.loc(), f"backtracking helper has {len(paths)} paths")
+    if not rets or len(rets) != len(paths) or len(rets) > 2:
+        ctx.undecided(rule, "helper", hf.loc(), f"backtracking helper has {len(paths)} paths ({len(rets)} returning)")
         return
-    hp = rets[0]
-    loops = main_loop(hp, hf.qualname)
-    if len(loops) != 1 or loops[0].kind != "while":
-        ctx.undecided(rule, "helper", hf.loc(), "backtracking helper is not a single while loop")
-        return
-    lp = loops[0]
-    pre = lp.info["pre"]
-    # the index variable: loop-carried scalar int
-    ivar = [n for n, v in pre.items() if isinstance(v, Num) and v.shape == ()]
-    if len(ivar) != 1:
-        ctx.undecided(rule, "helper", hf.loc(), "cannot identify the chain index variable")
-        return
-    iname = ivar[0]
-    i0 = pre[iname]
-    ctx.check(nf_equal(i0.nf, lift(N) - 1), rule, "start", hf.loc(lp.node), "the chain starts at the last sample, i = n - 1", found=repr(i0.nf), expected="n - 1")
-    iin = NF.atom(Atom("lc", f"{lp.lid}.{iname}.in"))
-    cond = lp.info.get("cond")
-    okc = cond is not None and cond.t[0] == "cmp" and cond.t[1] == "<=0" and nf_equal(cond.t[2], -iin)
-    ctx.check(okc, rule, "condition", hf.loc(lp.node), "the chain is followed while i >= 0", found=repr(cond), expected="i >= 0")
-    body_i = lp.info["body_env"].get(iname)
-    want_next = app("idx", sym("prev"), (("at", iin),)) - 1
-    ctx.check(isinstance(body_i, Num) and nf_equal(body_i.nf, want_next), rule, "step", hf.loc(lp.node), "i <- prev[i] - 1 (jump to the sample before the segment start)", found=repr(body_i), expected=repr(want_next))
-    apps = [e for e in loop_events(hp, lp, "list_append")]
-    ok_app = len(apps) == 1 and isinstance(apps[0].data["value"], Num) and nf_equal(apps[0].data["value"].nf, app("idx", sym("prev"), (("at", iin),)))
-    ctx.check(ok_app, rule, "collect", apps[0].loc() if apps else hf.loc(), "each visited segment start prev[i] is collected exactly once", found=repr(apps[0].data["value"]) if apps else "no append")
-    # return: np.array(list[-2::-1])  (drop the artificial start 0, restore increasing order)
-    out = hp.value
-    src = out.meta.get("from_list") if isinstance(out, Num) else None
-    sl = getattr(src, "slice_of", None)
-    ok_ret = False
-    found = repr(out)
-    if sl is not None and apps and sl[0] is apps[0].data["lst"]:
-        s = sl[1]
-        lo = s.lo.nf.as_const() if isinstance(s.lo, Num) else None
-        hi_none = isinstance(s.hi, NoneV)
-        stp = s.step.nf.as_const() if isinstance(s.step, Num) else None
-        ok_ret = lo == -2 and hi_none and stp == -1
-        found = f"list[{lo}:{'' if hi_none else '?'}:{stp}]"
-    ctx.check(ok_ret, rule, "result", hf.loc(), "the result is the collected starts in reverse (increasing) order without the last collected one (the artificial start 0)", found=found, expected="list[-2::-1]")
+    # Two idioms are decided.  (A) every visited start is collected and the artificial start 0 is dropped afterwards:
+    # one path, result list[-2::-1].  (B) the artificial start is skipped inside the loop: the start is collected iff the
+    # next index prev[i] - 1 is >= 0 (two paths), result list[::-1].
+    first = True
+    collected = {}
+    for hp in rets:
+        loops = main_loop(hp, hf.qualname)
+        if len(loops) != 1 or loops[0].kind != "while":
+            ctx.undecided(rule, "helper", hf.loc(), "backtracking helper is not a single while loop")
+            return
+        lp = loops[0]
+        pre = lp.info["pre"]
+        ivar = [n for n, v in pre.items() if isinstance(v, Num) and v.shape == ()]
+        if len(ivar) != 1:
+            ctx.undecided(rule, "helper", hf.loc(), "cannot identify the chain index variable")
+            return
+        iname = ivar[0]
+        i0 = pre[iname]
+        iin = NF.atom(Atom("lc", f"{lp.lid}.{iname}.in"))
+        cond = lp.info.get("cond")
+        body_i = lp.info["body_env"].get(iname)
+        want_next = app("idx", sym("prev"), (("at", iin),)) - 1
+        if first:
+            first = False
+            ctx.check(nf_equal(i0.nf, lift(N) - 1), rule, "start", hf.loc(lp.node), "the chain starts at the last sample, i = n - 1", found=repr(i0.nf), expected="n - 1")
+            okc = cond is not None and cond.t[0] == "cmp" and cond.t[1] == "<=0" and nf_equal(cond.t[2], -iin)
+            ctx.check(okc, rule, "condition", hf.loc(lp.node), "the chain is followed while i >= 0", found=repr(cond), expected="i >= 0")
+        ok_step = isinstance(body_i, Num) and nf_equal(body_i.nf, want_next)
+        if not ok_step or "step" not in collected:
+            collected["step"] = True
+            ctx.check(ok_step, rule, "step", hf.loc(lp.node), "i <- prev[i] - 1 (jump to the sample before the segment start)", found=repr(body_i), expected=repr(want_next))
+        apps = [e for e in loop_events(hp, lp, "list_append")]
+        ok_val = all(isinstance(e.data["value"], Num) and nf_equal(e.data["value"].nf, app("idx", sym("prev"), (("at", iin),))) for e in apps) and len(apps) <= 1
+        if not ok_val:
+            ctx.violation(rule, "collect", apps[0].loc() if apps else hf.loc(), "what is collected is not the visited segment start prev[i] (once per visit)", found=[repr(e.data["value"]) for e in apps])
+            return
+        # the decision (if any) that guards the append on this path: a test of the next index prev[i] - 1 >= 0
+        gval = None
+        for c, v in hp.facts:
+            if c.t[0] == "cmp" and c.t[1] in ("<=0", "<0") and (nf_equal(c.t[2], -want_next) or nf_equal(c.t[2], -(want_next + 1)) or nf_equal(c.t[2], want_next + 1) or nf_equal(c.t[2], want_next)):
+                # normalise to the truth of (prev[i] - 1 >= 0)
+                if nf_equal(c.t[2], -want_next) and c.t[1] == "<=0":
+                    gval = v
+                elif nf_equal(c.t[2], -(want_next + 1)) and c.t[1] == "<0":
+                    gval = v          # -(prev[i]) < 0  <=>  prev[i] >= 1
+                elif nf_equal(c.t[2], want_next) and c.t[1] == "<0":
+                    gval = not v      # prev[i] - 1 < 0
+                elif nf_equal(c.t[2], want_next + 1) and c.t[1] == "<=0":
+                    gval = not v      # prev[i] <= 0
+        collected.setdefault("paths", []).append((bool(apps), gval, hp, apps))
+    pinfo = collected.get("paths", [])
+    out_slices = set()
+    for has_app, gval, hp, apps in pinfo:
+        out = hp.value
+        src = out.meta.get("from_list") if isinstance(out, Num) else None
+        sl = getattr(src, "slice_of", None)
+        if sl is None:
+            out_slices.add("no-slice")
+            continue
+        s_ = sl[1]
+        lo = None if isinstance(s_.lo, NoneV) else (s_.lo.nf.as_const() if isinstance(s_.lo, Num) else "?")
+        hi_none = isinstance(s_.hi, NoneV)
+        stp = s_.step.nf.as_const() if isinstance(s_.step, Num) else None
+        out_slices.add((lo, hi_none, stp))
+    if len(pinfo) == 1 and pinfo[0][0] and pinfo[0][1] is None:
+        ctx.holds(rule, "collect", pinfo[0][3][0].loc(), "each visited segment start prev[i] is collected exactly once")
+        ok_ret = out_slices == {(-2, True, -1)}
+        ctx.check(ok_ret, rule, "result", hf.loc(), "the result is the collected starts in reverse (increasing) order without the last collected one (the artificial start 0)", found=sorted(map(str, out_slices)), expected="list[-2::-1]")
+    elif len(pinfo) == 2 and sorted((a_, g_) for a_, g_, _, _ in pinfo) == [(False, False), (True, True)]:
+        ctx.holds(rule, "collect", hf.loc(), "a visited segment start is collected iff the chain continues (prev[i] - 1 >= 0): the artificial start 0, where the chain ends, is skipped")
+        ok_ret = out_slices <= {(None, True, -1), (-1, True, -1)} and bool(out_slices)
+        ctx.check(ok_ret, rule, "result", hf.loc(), "the result is the collected starts in reverse (increasing) order", found=sorted(map(str, out_slices)), expected="list[::-1]")
+    else:
+        ctx.violation(rule, "collect", hf.loc(), "the visited segment starts are neither all collected (and the artificial 0 dropped afterwards) nor collected exactly when the chain continues", found=[(a_, g_) for a_, g_, _, _ in pinfo], expected="one unconditional append, or an append guarded by prev[i] - 1 >= 0")
 
 
 def check_predict_wiring(ctx, cls, pred, call, drv):
